@@ -22,12 +22,15 @@ Definition inode := nat.
 Definition slot := nat.
 
 (* FileLock(remove_on_unlock=rm) or SemLock(n) *)
-Inductive kind := KFile (rm : bool) | KSem (n : nat).
+(* KClean: a process that runs cleanup_lockdir(lock_dir, max_lock_time = p_timeout, force = True) (as TileLocker.lock
+   does on every 50th call); it only takes steps in `stepc` below *)
+Inductive kind := KFile (rm : bool) | KSem (n : nat) | KClean.
 Record pconf := mk_pconf { p_kind : kind; p_timeout : Z }.
 
-Definition nslots (c : pconf) : nat := match p_kind c with KFile _ => 1 | KSem n => n end.
-Definition removes (c : pconf) : bool := match p_kind c with KFile rm => rm | KSem _ => false end.
-Definition is_sem (c : pconf) : bool := match p_kind c with KFile _ => false | KSem _ => true end.
+Definition nslots (c : pconf) : nat := match p_kind c with KFile _ => 1 | KSem n => n | KClean => 1 end.
+Definition removes (c : pconf) : bool := match p_kind c with KFile rm => rm | _ => false end.
+Definition is_sem (c : pconf) : bool := match p_kind c with KSem _ => true | _ => false end.
+Definition is_clean (c : pconf) : bool := match p_kind c with KClean => true | _ => false end.
 
 (* context of one LockFile attempt inside FileLock.lock / SemLock._try_lock:
    stop_time of the lock() call, `tries` of SemLock._try_lock (1-based, 1 for FileLock), path index *)
@@ -44,7 +47,11 @@ Inductive pc :=
 | Sleep (stop : Z)                            (* about to time.sleep(step) *)
 | Replacing (k : slot) (i : inode)            (* self._lock = <new LockFile>: the old LockFile is dropped, its file closes *)
 | Inside (k : slot) (i : inode)               (* lock() has returned; next call is the first one of unlock() *)
-| RmFailed (k : slot) (i : inode).            (* os.remove raised OSError: about to self._lock.close() *)
+| RmFailed (k : slot) (i : inode)             (* os.remove raised OSError: about to self._lock.close() *)
+(* cleanup_lockdir (KClean processes only) *)
+| CScan (expire : Z)                          (* expire_time computed: about to os.listdir (then isfile, endswith) *)
+| CStat (expire : Z)                          (* the lock file was listed: about to os.path.getmtime *)
+| CUnlink.                                    (* mtime < expire_time: about to os.unlink *)
 
 (* zomb: the file of a LockFile that was released by os.remove only; FileLock.unlock does not close it, it stays
    open (and keeps its flock on the unlinked inode) until the FileLock drops it *)
@@ -61,13 +68,15 @@ Definition init : state := mk_state (fun _ => None) 0 (fun _ => None) (fun _ => 
 
 Definition upd {A} (f : nat -> A) (x : nat) (v : A) : nat -> A := fun y => if Nat.eqb y x then v else f y.
 
-Inductive op := OTime (t : Z) | ORand (r : nat) | OOpen | OFlock | OStat | OClose | ORemove | OSleep.
+Inductive op := OTime (t : Z) | ORand (r : nat) | OOpen | OFlock | OStat | OClose | ORemove | OSleep
+  | OList | OMtime (m : option Z) | OUnlink.
 Inductive res :=
 | RUnit
 | ROpen (k : slot) (i : inode) (created : bool)
 | RFlock (ok : bool)
 | RStat (o : option inode)
-| RRemove (ok : bool).
+| RRemove (ok : bool)
+| RList (present : bool).
 Inductive event := ENone | EAcquired (k : slot) (i : inode) | ETimeout.
 
 Definition set_p (s : state) (p : pid) (st : pstate) : state :=
@@ -176,6 +185,54 @@ Fixpoint run (chk : bool) (cfg : pid -> pconf) (s : state) (l : list label) : op
 
 Definition reachable (chk : bool) (cfg : pid -> pconf) (s : state) : Prop :=
   exists l, run chk cfg init l = Some s.
+
+(* ---------------------------------------------------------------- the lock directory clean-up
+
+   cleanup_lockdir(lockdir, suffix='.lck', max_lock_time, force=True), for a directory that holds the FileLock path
+   (slot 0; the files of a SemLock end in a digit and do not match the suffix):
+     expire_time = time.time() - max_lock_time
+     for entry in os.listdir(lockdir):            one step with isfile/endswith
+         if os.path.getmtime(name) < expire_time: (OSError ENOENT is ignored)
+             os.unlink(name)                      (a failing unlink is logged and ignored)
+   The modification time is a reading supplied by the environment, like the clock: the label carries it. *)
+Definition step_clean (cfg : pid -> pconf) (s : state) (p : pid) (o : op) : option (state * res * event) :=
+  match st_pc (ps s p), o with
+  | Idle, OTime t => Some (set_pc s p (CScan (t - p_timeout (cfg p))%Z), RUnit, ENone)
+  | CScan e, OList =>
+    match path s 0 with
+    | Some _ => Some (set_pc s p (CStat e), RList true, ENone)
+    | None => Some (set_pc s p Idle, RList false, ENone)
+    end
+  | CStat e, OMtime m =>
+    match path s 0, m with
+    | Some _, Some mt => Some (set_pc s p (if Z.ltb mt e then CUnlink else Idle), RUnit, ENone)
+    | None, None => Some (set_pc s p Idle, RUnit, ENone)
+    | _, _ => None
+    end
+  | CUnlink, OUnlink =>
+    match path s 0 with
+    | Some _ => Some (set_pc (set_path s 0 None) p Idle, RRemove true, ENone)
+    | None => Some (set_pc s p Idle, RRemove false, ENone)
+    end
+  | _, _ => None
+  end.
+
+(* lock users and clean-up processes together *)
+Definition stepc (chk : bool) (cfg : pid -> pconf) (s : state) (p : pid) (o : op) : option (state * res * event) :=
+  if is_clean (cfg p) then step_clean cfg s p o else step chk cfg s p o.
+
+Fixpoint runc (chk : bool) (cfg : pid -> pconf) (s : state) (l : list label) : option state :=
+  match l with
+  | [] => Some s
+  | (p, o) :: r =>
+    match stepc chk cfg s p o with
+    | Some (s', _, _) => runc chk cfg s' r
+    | None => None
+    end
+  end.
+
+(* no clean-up of the schedule got as far as unlinking *)
+Definition no_unlink (l : list label) : Prop := forall p, ~ In (p, OUnlink) l.
 
 (* the process is inside the locked section through lock file k *)
 Definition inside_at (s : state) (p : pid) (k : slot) : Prop :=
@@ -287,6 +344,7 @@ Definition res_eqb (a b : res) : bool :=
   | RStat None, RStat None => true
   | RStat (Some x), RStat (Some y) => Nat.eqb x y
   | RRemove x, RRemove y => Bool.eqb x y
+  | RList x, RList y => Bool.eqb x y
   | _, _ => false
   end.
 
@@ -305,7 +363,7 @@ Fixpoint first_bad (chk : bool) (cfg : pid -> pconf) (s : state) (tr : list obs)
   match tr with
   | [] => None
   | (p, o, r, e) :: rest =>
-    match step chk cfg s p o with
+    match stepc chk cfg s p o with
     | Some (s', r', e') =>
       if res_eqb r r' && event_eqb e e' then first_bad chk cfg s' rest (S n) else Some n
     | None => Some n
